@@ -68,6 +68,12 @@ func Explore(setup func(c *Ctl) (finish func(r *Run)), order map[string]int, max
 	var prefix []string
 	for n < max {
 		r := RunSchedule(setup, prefix, order, maxSteps)
+		// a replayed prefix that cannot be followed (the controller was asked to release a thread that is
+		// not at a scheduling point) is a property of the run, not of the code: run it again, and only a
+		// persistent failure is handed on
+		for tries := 0; r.Err != "" && tries < 3; tries++ {
+			r = RunSchedule(setup, prefix, order, maxSteps)
+		}
 		each(r)
 		n++
 		i := len(r.Sched) - 1
@@ -125,6 +131,14 @@ func Code(st Status) uint64 {
 // RunRandom runs one schedule choosing uniformly among the enabled threads with the given
 // source of choices (reproducible from the seed the harness derives it from).
 func RunRandom(setup func(c *Ctl) (finish func(r *Run)), order map[string]int, maxSteps int, pick func(n int) int) Run {
+	r := runRandomOnce(setup, order, maxSteps, pick)
+	for tries := 0; r.Err != "" && tries < 3; tries++ {
+		r = runRandomOnce(setup, order, maxSteps, pick)
+	}
+	return r
+}
+
+func runRandomOnce(setup func(c *Ctl) (finish func(r *Run)), order map[string]int, maxSteps int, pick func(n int) int) Run {
 	var r Run
 	ctl := Install()
 	finish := setup(ctl)
